@@ -100,6 +100,7 @@ func setup() {
 	setupOnce.Do(func() {
 		caddy.RegisterModule(probeApp{})
 		caddyconfig.RegisterAdapter("c12wrap", wrapAdapter{})
+		caddy.RegisterModule(pullLoader{})
 		os.MkdirAll("/verif/.run", 0o755)
 		dir, err := os.MkdirTemp("/verif/.run", "c12-")
 		if err != nil {
@@ -476,7 +477,7 @@ type observation struct {
 	idResp  map[string]response
 	loads   int
 	saved   string // tree of the autosave file, "-" if there is none
-	ctx     any // identity of the running config's context: changes with every load, also of configs without the probe app
+	ctx     any    // identity of the running config's context: changes with every load, also of configs without the probe app
 	saw     string
 	sawTree any
 	hasSaw  bool
@@ -633,6 +634,9 @@ func (prop) Run(line string) core.Outcome {
 		return runIDRace(f[1])
 	case len(f) == 3 && f[0] == "peek":
 		return runPeek(f[1], f[2])
+	}
+	if len(f) == 3 && f[0] == "pull" {
+		return runPull(line, f[1], f[2])
 	}
 	if len(f) == 4 && f[0] == "cli" {
 		return runCLI(line, f[1], f[2], f[3])
